@@ -6,13 +6,13 @@ set_option linter.unusedSectionVars false
 /-! Row count of a stitch with shared ownership (over an ordered field, balance threshold 7/10). -/
 
 /-- both sides within a factor 0.7 of the result -/
-def Balanced (a b n : Nat) : Prop := 7 * max a b ≤ 10 * n ∧ 7 * n ≤ 10 * min a b
+def RowsBalanced (a b n : Nat) : Prop := 7 * max a b ≤ 10 * n ∧ 7 * n ≤ 10 * min a b
 /-- C12's interval `[min(0.7·max(L,R), min(L,R)), max(min(L,R)/0.7, max(L,R))]` (in integers) -/
-def WithinOwnerBounds (a b n : Nat) : Prop := (min a b ≤ n ∧ n ≤ max a b) ∨ Balanced a b n
+def WithinOwnerBounds (a b n : Nat) : Prop := (min a b ≤ n ∧ n ≤ max a b) ∨ RowsBalanced a b n
 
-theorem Balanced.add {a1 b1 n1 a2 b2 n2 : Nat} (h1 : Balanced a1 b1 n1) (h2 : Balanced a2 b2 n2) :
-    Balanced (a1 + a2) (b1 + b2) (n1 + n2) := by
-  unfold Balanced at *
+theorem RowsBalanced.add {a1 b1 n1 a2 b2 n2 : Nat} (h1 : RowsBalanced a1 b1 n1) (h2 : RowsBalanced a2 b2 n2) :
+    RowsBalanced (a1 + a2) (b1 + b2) (n1 + n2) := by
+  unfold RowsBalanced at *
   omega
 
 section
@@ -101,11 +101,11 @@ theorem mergeMicrodata_length (c : StitchCtx α) (left right result : List (MRow
 
 /-- what the count of a shared-ownership stitch satisfies: within the owner bounds, and balanced if the pair was balanced -/
 def CountOK (a b n : Nat) : Prop :=
-  WithinOwnerBounds a b n ∧ ((0 < min a b ∧ 7 * max a b ≤ 10 * min a b) → Balanced a b n)
+  WithinOwnerBounds a b n ∧ ((0 < min a b ∧ 7 * max a b ≤ 10 * min a b) → RowsBalanced a b n)
 
 theorem countOK_terminal (l r n : Nat) (hl : 0 < l) (hr : 0 < r) (h1 : min l r ≤ n) (h2 : n ≤ max l r) : CountOK l r n := by
   refine ⟨Or.inl ⟨h1, h2⟩, fun ⟨_, hb⟩ => ?_⟩
-  unfold Balanced; omega
+  unfold RowsBalanced; omega
 
 theorem stitchRec_count (c : StitchCtx α) (hth : c.threshRel = (7 : α) / 10) (hown : c.owner = .shared) :
     ∀ (fuel : Nat) (st : StitchState α) (left right result : List (MRow β α)) (s s' : List (Draw α)),
@@ -148,7 +148,7 @@ theorem stitchRec_count (c : StitchCtx α) (hth : c.threshRel = (7 : α) / 10) (
           have a2 := (acceptable_iff (α := α) _ _).mp h3.2
           have c1 := (ih _ _ _ _ _ _ hlo).2 a1
           have c2 := (ih _ _ _ _ _ _ hup).2 a2
-          have hsum := Balanced.add c1 c2
+          have hsum := RowsBalanced.add c1 c2
           have hL : (List.take lsp L).length + (List.drop lsp L).length = L.length := by
             rw [← List.length_append, List.take_append_drop]
           have hR : (List.take rsp R).length + (List.drop rsp R).length = R.length := by
